@@ -60,28 +60,47 @@ class Act(object):
     self.ended = 'return'
 
 
+class Fuel(BaseException):
+  """The instrumented run executed more probes than any generated program can (they carry fuel counters);
+  only programs mutilated by the minimiser get here."""
+
+
+_BUDGET = [0]
+MAX_PROBES = 20000
+
+
+def _tick(n=1):
+  _BUDGET[0] -= n
+  if _BUDGET[0] < 0:
+    raise Fuel()
+
+
 class RT(object):
   def __init__(self):
     self.acts = []
 
   def enter(self, fid, first):
+    _tick()
     a = Act(fid, first)
     self.acts.append(a)
     return a
 
   def lam(self, fid, *ids):
+    _tick()
     a = Act(fid, ids[0])
     a.trace = list(ids)
     self.acts.append(a)
 
   @staticmethod
   def p(a, *ids):
+    _tick()
     a.trace.extend(ids)
 
   @staticmethod
   def it(a, i, iterable):
     itr = iter(iterable)
     while True:
+      _tick()
       a.trace.append(i)
       try:
         v = next(itr)
@@ -347,7 +366,7 @@ class Instrumenter(object):
 
 def describe(tree_a):
   """role[id(ast node)] = short kind used in signatures, e.g. 'If.test', 'Return@body/handler' (the path of
-  try parts - body / handler / orelse / finally - from the function down to the node)."""
+  try parts - body / handler / orelse / finally - from the function down to the node, last two kept)."""
   role = {}
 
   def rec(node, part):
@@ -370,7 +389,7 @@ def describe(tree_a):
           base = 'For.iter'
         elif isinstance(node, ast.Lambda) and f == 'body':
           base = 'Lambda.body'
-        role[id(it)] = base + ('@' + p[1:] if p else '')
+        role[id(it)] = base + ('@' + '/'.join(p[1:].split('/')[-2:]) if p else '')
         rec(it, p)
   rec(tree_a, '')
   return role
@@ -518,6 +537,7 @@ class Prepared(object):
 
   def run(self, bits):
     self.rt.acts = []
+    _BUDGET[0] = MAX_PROBES
     t = harness.Tracer()
     c = harness.Decisions(bits, t)
     self.ns['G'][0] = 0
@@ -526,6 +546,8 @@ class Prepared(object):
       self.ns['f'](t, c, [5, 7])
     except RecursionError:
       outcome = 'RecursionError'
+    except Fuel:
+      outcome = 'out-of-fuel'
     except Exception as e:
       outcome = type(e).__name__
     return c.i, outcome, self.rt.acts
@@ -612,6 +634,9 @@ def check_source(src, maxlen=6, cap=48):
   def run(bits):
     used, outcome, acts = P.run(bits)
     res['vectors'] += 1
+    if outcome == 'out-of-fuel':
+      add('generator-bug', 'nonterminating', 'more than %d probes executed' % MAX_PROBES, decisions=[bool(b) for b in bits])
+      return 0
     for a in acts:
       res['traces'] += 1
       limit = len(a.trace) if a.cut is None else a.cut
@@ -997,14 +1022,20 @@ def main():
   ap = argparse.ArgumentParser()
   ap.add_argument('seed', type=int)
   ap.add_argument('tier')
-  ap.add_argument('--avoid', default='D6,HJF,CBR,TEI')
+  ap.add_argument('--avoid', default='auto',
+                  help='comma list of D6,HJF,CBR,TEI; auto = avoid exactly those whose witness still fails')
   ap.add_argument('--k', type=int, default=None)
   ap.add_argument('--random', type=int, default=None)
   ap.add_argument('--xrandom', type=int, default=None)
   ap.add_argument('--depth', type=int, default=None)
   ap.add_argument('--maxfail', type=int, default=10)
   a = ap.parse_args()
-  avoid = tuple(x for x in a.avoid.split(',') if x)
+  if a.avoid == 'auto':
+    # a recorded defect that has been repaired must come back into the program space
+    avoid = tuple(wkind[len('known-'):] for wkind, wsig, body in WITNESSES
+                  if check_source(progen.HEADER + body)['failures'])
+  else:
+    avoid = tuple(x for x in a.avoid.split(',') if x)
   thorough = a.tier == 'thorough'
   K = a.k if a.k is not None else (3 if thorough else 2)
   nrand = a.random if a.random is not None else (12000 if thorough else 1500)
